@@ -103,18 +103,18 @@ def _dim_names(env, rel):
     return d if not isinstance(d, Raised) else "raised: %r" % (d.exc,)
 
 
-def _frame_sweep(env, label, rel, scope, oracle, names_before):
+def _frame_sweep(env, label, rel, scope, oracle, names_before, sfx="", same=None):
     """after the calls of this path: the relation the caller handed in still has the scope
     it had and still gives the defined value on every full assignment"""
     now = _dim_names(env, rel)
     ok = now == names_before
-    _prove(env, label + ".dimensions-unchanged", ok, detail=lambda: dict(before=names_before, now=now))
+    _prove(env, label + ".dimensions-unchanged" + sfx, ok, detail=lambda: dict(before=names_before, now=now))
     if not ok:
         return
     for a in fx.assignments(scope):
         exp = oracle(a)
         got = env.call(lambda: rel(**a))
-        _prove(env, label + ".values-unchanged", _same(got, exp),
+        _prove(env, label + ".values-unchanged" + sfx, (same or _same)(got, exp),
                detail=lambda: dict(assignment=a, got=got, defined=exp, tb=getattr(got, "tb", None)))
 
 
@@ -251,31 +251,46 @@ def _check_eval(env, tag, rel, scope, oracle, sfx=""):
         _prove(env, "%s.frame.eval.assignment-list-unchanged%s" % (tag, sfx), _unchanged(l_before, l_arg),
                detail=lambda: dict(before=l_before, now=_items(l_arg)))
     # FRAME: evaluating does not change the relation (second pass over every assignment)
-    _frame_sweep(env, "%s.frame.eval.relation%s" % (tag, sfx) if not sfx else "%s.frame.eval.relation" % tag,
-                 rel, dims, oracle, names_before)
+    _frame_sweep(env, "%s.frame.eval.relation" % tag, rel, dims, oracle, names_before, sfx)
 
 
 def _check_chain(env, tag, rel, scope, oracle, chain, sfx="", slice_kw=None, zeroed_ok=None):
     """slice along ``chain`` for every value of the sliced variables; the result is over
-    exactly the remaining variables and gives the defined value on every completion"""
+    exactly the remaining variables and gives the defined value on every completion.
+
+    FRAME (labels ``<kind>.frame.slice.*``): the dict given to each ``slice`` call is not
+    modified; the relations sliced (the original and every intermediate result) keep their
+    scope; the same dict used for a second ``slice`` of the original gives the same relation
+    again; modifying the result (``set_value_for_assignment``, where the kind of the result
+    has it) changes neither the result (documented: "returns a new relation ... DOES NOT
+    modify the current relation") nor the original; after all of this the original still
+    gives the defined value on every full assignment."""
     calls = [b for b in chain]
     lab = "%s.%s" % (tag, "slice-in-one-step" if len(calls) == 1 else "slice-in-several-steps")
+    flab = "%s.frame.slice" % tag
     byname = {v.name: v for v in scope}
     sliced = [n for blk in chain for n in blk if n in byname]
     rest = [v for v in scope if v.name not in sliced]
+    names_before = _dim_names(env, rel)
     for vals in itertools.product(*[list(byname[n].domain) for n in sliced]):
         p = dict(zip(sliced, vals))
         cur = rel
         failed = None
         done = {}
         zeroed = False
+        taken = []       # (relation sliced, its dimension names before, the dict given, the result)
         for blk in calls:
             step = {n: (p[n] if n in byname else _FOREIGN[n]) for n in blk}
+            step_before = _items(step)
+            src, src_names = cur, _dim_names(env, cur)
             nxt = env.call(cur.slice, step, **(slice_kw or {}))
+            _prove(env, flab + ".partial-assignment-unchanged" + sfx, _unchanged(step_before, step),
+                   detail=lambda: dict(chain=chain, given=step_before, now=_items(step)))
             if isinstance(nxt, Raised):
                 failed = (step, nxt)
                 break
             cur = nxt
+            taken.append((src, src_names, step, nxt))
             done.update({n: p[n] for n in blk if n in byname})
             if zeroed_ok and zeroed_ok(done) and list(cur.dimensions) == []:
                 zeroed = True      # documented constant-0 result: there is nothing left to slice
@@ -305,6 +320,43 @@ def _check_chain(env, tag, rel, scope, oracle, chain, sfx="", slice_kw=None, zer
             _prove(env, lab + ".result-positional-and-dict-forms-agree" + sfx, And(_same(pos, exp), _same(dct, exp)),
                    detail=lambda: dict(chain=chain, values=p, completion=c, positional=pos, dict_form=dct, defined=exp,
                                        result=repr(cur)))
+        # ---- FRAME, per value of the sliced variables
+        # every relation that was sliced still has the scope it had
+        for src, src_names, step, _res in taken:
+            now = _dim_names(env, src)
+            _prove(env, flab + ".sliced-relation-keeps-its-dimensions" + sfx, now == src_names,
+                   detail=lambda: dict(chain=chain, values=p, step=step, before=src_names, now=now))
+        c0 = next(iter(fx.assignments(rest)))
+        full0 = dict(p)
+        full0.update(c0)
+        # the result can be modified (through the API) without changing itself or the original
+        if type(cur).__name__ in ("NAryMatrixRelation", "ZeroAryRelation") and not isinstance(dims, Raised):
+            cc0 = {} if zeroed else c0
+            mod = env.call(cur.set_value_for_assignment, dict(cc0), -12345)
+            if not isinstance(mod, Raised):      # (what it returns is C12's business)
+                got = env.call(lambda: cur(**cc0))
+                _prove(env, flab + ".result-unchanged-by-set_value_for_assignment" + sfx, _same(got, oracle(full0)),
+                       detail=lambda: dict(chain=chain, values=p, completion=c0, got=got, defined=oracle(full0)))
+        # the caller uses its first dict again on the original: same relation as the first time
+        if taken:
+            src, _n, step0, res0 = taken[0]
+            again = env.call(rel.slice, step0, **(slice_kw or {}))
+            left = [v for v in scope if v.name not in step0]
+            a0 = {v.name: full0[v.name] for v in left}
+            if not isinstance(again, Raised):
+                adims = _dim_names(env, again)
+                if zeroed_ok and adims == [] and zeroed_ok({n: p[n] for n in step0 if n in byname}):
+                    a0 = {}
+                got = env.call(lambda: again(**a0))
+            else:
+                adims, got = None, again
+            _prove(env, flab + ".second-use-of-the-same-dict-gives-the-same-relation" + sfx,
+                   And(adims == _dim_names(env, res0), _same(got, oracle(full0))),
+                   detail=lambda: dict(chain=chain, values=p, step=step0, first_result_dimensions=_dim_names(env, res0),
+                                       second_result_dimensions=adims, at=a0, got=got, defined=oracle(full0),
+                                       tb=getattr(got, "tb", None)))
+    # ---- FRAME, after every slice of this path: the original is what it was
+    _frame_sweep(env, flab + ".original", rel, scope, oracle, names_before, sfx)
 
 
 def _run_case(env, tag, rel, scope, oracle, steps, sfx="", key_orders="both", **kw):
@@ -349,19 +401,24 @@ def h_matrix(env):
     vs = _mk_vars(_doms(env, p))
     if env.choice("variable-list-order", ["given", "reversed"]) == "reversed":
         vs = list(reversed(vs))
-    built = _build(env, "matrix", lambda: fx.matrix_relation(env, "mat", vs))
+    given = list(vs)         # the caller's own list of variables (FRAME: observed after the calls)
+    built = _build(env, "matrix", lambda: fx.matrix_relation(env, "mat", given))
     if built is None:
         return
     rel, cells = built
     oracle = lambda a: cells[tuple(a[v.name] for v in vs)]  # noqa
+    # (the matrix handed to the constructor is not observed: whether the relation keeps the
+    #  caller's array or a copy of it is not specified)
     if p.get("extra"):
         chain = env.choice("case", _with_extras(_chains(_names(vs), "one", "all")))
         env.cover("post")
         if getattr(env, "dry", False):
             return
         _check_chain(env, "matrix", rel, vs, oracle, chain, "[ignore_extra_vars]", slice_kw=dict(ignore_extra_vars=True))
+        _frame_variable_list(env, "matrix", rel, given, vs, "[ignore_extra_vars]")
         return
     _run_case(env, "matrix", rel, vs, oracle, p["steps"], key_orders="all")
+    _frame_variable_list(env, "matrix", rel, given, vs)
 
 
 def _matrix_shapes(tier):
@@ -388,8 +445,10 @@ def h_function(env):
     build = p["build"]
     sfx = ""
     scope = vs
+    given = list(vs)         # the caller's own list of variables (FRAME: observed after the calls)
+    base = None
     if build == "positional":
-        make = lambda: R.NAryFunctionRelation(_mk_func(["p%d" % i for i in range(len(vs))], tab.cell), vs, name="r")  # noqa
+        make = lambda: R.NAryFunctionRelation(_mk_func(["p%d" % i for i in range(len(vs))], tab.cell), given, name="r")  # noqa
     elif build == "decorator":
         make = lambda: R.AsNAryFunctionRelation(*vs)(_mk_func(["p%d" % i for i in range(len(vs))], tab.cell))  # noqa
     elif build in ("kwargs-fallback", "f_kwargs"):
@@ -397,26 +456,39 @@ def h_function(env):
             return tab(**kw)
         order = env.choice("variable-list-order", list(itertools.permutations(range(len(vs)))))
         scope = [vs[i] for i in order]
-        make = lambda: R.NAryFunctionRelation(g, scope, name="r", f_kwargs=(build == "f_kwargs"))  # noqa
+        given = list(scope)
+        make = lambda: R.NAryFunctionRelation(g, given, name="r", f_kwargs=(build == "f_kwargs"))  # noqa
     elif build == "named-f_kwargs":
         # f_kwargs=True: "the arguments name must map the variables names", any list order
         order = env.choice("variable-list-order", list(itertools.permutations(range(len(vs)))))
         scope = [vs[i] for i in order]
         if list(order) != sorted(order):
             sfx = "[list-order-differs-from-argument-order]"
-        make = lambda: R.NAryFunctionRelation(_mk_func(_names(vs), tab.cell), scope, name="r", f_kwargs=True)  # noqa
+        given = list(scope)
+        make = lambda: R.NAryFunctionRelation(_mk_func(_names(vs), tab.cell), given, name="r", f_kwargs=True)  # noqa
     elif build == "partial-base":
         # a functools.partial as the relation function (func_args supports keyword partials)
         args = ["p%d" % i for i in range(len(vs))]
         k = len(args) // 2
         f2 = _mk_func(args[:k] + ["fixed"] + args[k:], lambda key: tab.cell(key[:k] + key[k + 1:]) if key[k] == 5 else None)
-        make = lambda: R.NAryFunctionRelation(functools.partial(f2, fixed=5), vs, name="r")  # noqa
+        base = functools.partial(f2, fixed=5)
+        base_kw = _items(base.keywords)
+        make = lambda: R.NAryFunctionRelation(base, given, name="r")  # noqa
     else:
         raise ValueError(build)
     rel = _build(env, "function[%s]" % build, make)
     if rel is None:
         return
     _run_case(env, "function[%s]" % build, rel, scope, oracle, p["steps"], sfx)
+    # FRAME: the list of variables (and the keywords of the functools.partial) the caller built
+    # the relation from; the decorator takes its variables as *args (no caller-side list)
+    if getattr(env, "dry", False):
+        return
+    if base is not None:
+        _prove(env, "function[%s].frame.keywords-of-the-partial-unchanged%s" % (build, sfx), _unchanged(base_kw, base.keywords),
+               detail=lambda: dict(before=base_kw, now=_items(base.keywords)))
+    if build != "decorator":
+        _frame_variable_list(env, "function[%s]" % build, rel, given, scope, sfx)
 
 
 def _function_shapes(tier):
@@ -453,7 +525,8 @@ def h_simple(env):
         scope, oracle = [], (lambda a: val)
     elif kind == "neutral":
         scope = _mk_vars(_doms(env, p))
-        make = lambda: R.NeutralRelation(scope, "neutral")  # noqa
+        given = list(scope)      # the caller's own list of variables (FRAME: observed after the calls)
+        make = lambda: R.NeutralRelation(given, "neutral")  # noqa
         oracle = lambda a: 0  # noqa
     else:
         raise ValueError(kind)
@@ -461,6 +534,8 @@ def h_simple(env):
     if rel is None:
         return
     _run_case(env, kind, rel, scope, oracle, p["steps"])
+    if kind == "neutral":
+        _frame_variable_list(env, kind, rel, given, scope)
 
 
 def _simple_shapes(tier):
@@ -513,8 +588,10 @@ def h_conditional(env):
             tab = fx.LazyTable(env, "cns", kvs)
             cons = R.NAryFunctionRelation(_mk_func(["k%d" % i for i in range(len(kvs))], tab.cell), kvs, name="cns")
             value = tab.cell
+        parts.extend([cond, cons, _dim_names(env, cond), _dim_names(env, cons)])
         return R.ConditionalRelation(cond, cons, name="cr", return_neutral=rn), value
 
+    parts = []       # the two relations the caller composes (FRAME: observed after the calls)
     built = _build(env, "conditional", make)
     if built is None:
         return
@@ -532,6 +609,16 @@ def h_conditional(env):
     # ZeroAryRelation 0 (class docstring); accepted in place of a relation over the remaining variables
     zeroed_ok = None if rn else (lambda part: all(n in part for n in p["cond"]) and not truth(part))
     _run_case(env, "conditional", rel, scope, oracle, p["steps"], sfx, zeroed_ok=zeroed_ok)
+    # FRAME: the condition and the consequence handed to the constructor are the caller's
+    # objects (they may be used elsewhere, e.g. as constraints of their own): building,
+    # evaluating and slicing the conditional relation leaves their scope and values alone
+    if getattr(env, "dry", False):
+        return
+    cond, cons, cond_names, cons_names = parts
+    _frame_sweep(env, "conditional.frame.condition", cond, cvs, lambda a: truth_of(tuple(a[v.name] for v in cvs)),
+                 cond_names, sfx, same=lambda got, exp: (not isinstance(got, Raised)) and bool(got) == exp)
+    _frame_sweep(env, "conditional.frame.consequence", cons, kvs, lambda a: value_of(tuple(a[v.name] for v in kvs)),
+                 cons_names, sfx)
 
 
 def _conditional_shapes(tier):
@@ -594,23 +681,27 @@ def h_expression(env):
     sfx = ""
     scope = given
     oracle = lambda a: fn(**{n: a[n] for n in names})  # noqa
+    ef = arg_list = None     # FRAME: the expression function / list of variables the caller hands in
     if build == "from_str":
         maker = env.choice("function", ["constraint_from_str", "relation_from_str"]) if eid == p["exprs"][0] else "constraint_from_str"
         unused = Variable("unused", fx.domain("d_u", [1, 2]))
         k = (sum(order) + len(order)) % (len(given) + 1)
-        rel = env.call(getattr(R, maker), "e", text, given[:k] + [unused] + given[k:])
+        arg_list = given[:k] + [unused] + given[k:]
+        rel = env.call(getattr(R, maker), "e", text, arg_list)
     elif build == "nary-f_kwargs":
         ef = ExpressionFunction(text)
         if _names(given) != list(ef.variable_names):
             sfx = "[list-order-differs-from-argument-order]"
-        rel = env.call(R.NAryFunctionRelation, ef, given, "e", f_kwargs=True)
+        arg_list = list(given)
+        rel = env.call(R.NAryFunctionRelation, ef, arg_list, "e", f_kwargs=True)
     elif build == "nary-by-position":
         # variables with other names than the expression's, listed in the order of its arguments
         ef = ExpressionFunction(text)
         ren = {n: Variable("p_" + n, fx.domain("d_" + n, _EDOM[n])) for n in names}
         scope = [ren[n] for n in ef.variable_names]
         oracle = lambda a: fn(**{n: a["p_" + n] for n in names})  # noqa
-        rel = env.call(R.NAryFunctionRelation, ef, scope, "e")
+        arg_list = list(scope)
+        rel = env.call(R.NAryFunctionRelation, ef, arg_list, "e")
     elif build == "fixed-vars":
         # ExpressionFunction(expression, **fixed_vars): a partially evaluated expression
         if not names:
@@ -619,20 +710,38 @@ def h_expression(env):
         val = env.choice("fixed-value", list(fixed.domain))
         scope = given[:-1]
         oracle = lambda a: fn(**dict({n: a[n] for n in names if n != fixed.name}, **{fixed.name: val}))  # noqa
-        rel = env.call(lambda: R.NAryFunctionRelation(ExpressionFunction(text, **{fixed.name: val}), scope, "e", f_kwargs=True))
+        ef = env.call(lambda: ExpressionFunction(text, **{fixed.name: val}))
+        arg_list = list(scope)
+        rel = ef if isinstance(ef, Raised) else env.call(lambda: R.NAryFunctionRelation(ef, arg_list, "e", f_kwargs=True))
     elif build == "unary-function":
         # UnaryFunctionRelation(name, variable, rel_function: Union[ExpressionFunction, Callable])
         if len(names) != 1:
             env.assume(False)
-        rel = env.call(R.UnaryFunctionRelation, "e", vs[0], ExpressionFunction(text))
+        ef = env.call(ExpressionFunction, text)
+        rel = ef if isinstance(ef, Raised) else env.call(R.UnaryFunctionRelation, "e", vs[0], ef)
     else:
         raise ValueError(build)
     tag = "expression[%s]" % build
+    arg_before = None if arg_list is None else list(arg_list)
+    ef_before = None if ef is None or isinstance(ef, Raised) else (list(ef.variable_names), ef.expression)
     if isinstance(rel, Raised):
         env.cover("post")
         _prove(env, tag + ".builds" + sfx, False, detail=lambda: dict(expression=text, order=_names(given), tb=rel.tb))
         return
     _run_case(env, tag, rel, scope, oracle, p["steps"], sfx)
+    if getattr(env, "dry", False):
+        return
+    if ef is not None:
+        now = env.call(lambda: (list(ef.variable_names), ef.expression))
+        _prove(env, tag + ".frame.expression-function-unchanged" + sfx, now == ef_before,
+               detail=lambda: dict(before=ef_before, now=now))
+    if arg_list is not None:
+        if build == "from_str":
+            # all_variables is a pool the relation picks from: only "not modified" is required
+            _prove(env, tag + ".frame.variable-list-unchanged" + sfx, _unchanged(arg_before, arg_list),
+                   detail=lambda: dict(before=_names(arg_before), now=_names(arg_list)))
+        else:
+            _frame_variable_list(env, tag, rel, arg_list, arg_before, sfx)
 
 
 def _expression_shapes(tier):
